@@ -863,4 +863,4 @@ func FuzzC08(f *testing.F) {
 	})
 }
 
-func TestReplay(t *testing.T) { vstat.RunReplays(t, propFunc, propConn) }
+func TestReplay(t *testing.T) { vstat.RunReplays(t, propFunc, propConn, propNb) }
